@@ -7,7 +7,11 @@
    (list of feature structures added and not removed) per view, select = filter of the bag by the subtype
    relation `subb` (upward walk; `sub` is the reflexive-transitive closure of the supertype map).  Both start from
    a fresh CAS whose type system holds uima.cas.TOP; the predefined types are created by create_type like any
-   other (that is what TypeSystem.__init__ does), so every theorem covers them. *)
+   other (that is what TypeSystem.__init__ does), so every theorem covers them.
+   T may be named by a Type object of the CAS's type system (ByType), a string (ByName) or a Type object of any
+   other TypeSystem (ByForeign cts T, cts = the create_type calls made on that object so far): Cas.select takes a
+   Type object as it is, `sel_tree` is the tree of the type system the object belongs to (the CAS's own for the
+   first two forms). *)
 From Cassis Require Import Base Index Select SelectProofs.
 Open Scope Z_scope.
 
@@ -34,15 +38,55 @@ Print Assumptions C06_index_refines_bag.
 (* select: after any history, through any handle, for every way of naming T that resolves and every `order` argument,
    the result is a permutation of the bag of the handle's view filtered by "type is T or a transitive subtype of T" -
    each once, none missing, none from another view; and when `order` is an arrangement of the descendant names, that
-   is the order in which the per-type lists were concatenated. *)
+   is the order in which the per-type lists were concatenated.  (For q = ByType / ByName, `sel_tree (s_tree c) q` is
+   `s_tree c` by computation: the statement the earlier version of this file made is the instance C06_select_spec_own.) *)
 Theorem C06_select_spec : forall lenient ops h q order,
   let c := fst (crun lenient ops) in let a := fst (arun lenient ops) in
   forall v idx T, cur_view c h = Some (v, idx) -> resolve_sel (s_tree c) q = Ok T ->
   exists c' l, step cpl c (OSelect h q order) = (c', OList l) /\
-    Permutation l (map fs_ent (filter (fun f => subb (s_tree c) (f_type f) T) (bag_of a v))) /\
-    (forall D, descendants (s_tree c) T = Some D -> Permutation order D -> l = select_in order idx).
+    Permutation l (map fs_ent (filter (fun f => subb (sel_tree (s_tree c) q) (f_type f) T) (bag_of a v))) /\
+    (forall D, descendants (sel_tree (s_tree c) q) T = Some D -> Permutation order D -> l = select_in order idx).
 Proof. exact select_spec. Qed.
 Print Assumptions C06_select_spec.
+Theorem C06_select_spec_own : forall lenient ops h q order,
+  let c := fst (crun lenient ops) in let a := fst (arun lenient ops) in
+  (forall cts t, q <> ByForeign cts t) ->
+  forall v idx T, cur_view c h = Some (v, idx) -> resolve_sel (s_tree c) q = Ok T ->
+  exists c' l, step cpl c (OSelect h q order) = (c', OList l) /\
+    Permutation l (map fs_ent (filter (fun f => subb (s_tree c) (f_type f) T) (bag_of a v))) /\
+    (forall D, descendants (s_tree c) T = Some D -> Permutation order D -> l = select_in order idx).
+Proof.
+  intros lenient ops h q order c a Hq. pose proof (select_spec lenient ops h q order) as H. cbv zeta in H.
+  destruct q as [t|s|cts t]; [exact H|exact H|]. exfalso. exact (Hq cts t eq_refl).
+Qed.
+Print Assumptions C06_select_spec_own.
+
+(* T given as a Type object of ANOTHER type system (a lenient CAS can hold that system's instances): the result is the
+   bag of the view filtered by "type is T or a transitive subtype of T" in the tree of the type system T belongs to -
+   the closure of that system's supertype map, which its descendants walk computes, each name once; every type system
+   reachable by create_type calls is covered, no premise on it *)
+Theorem C06_select_foreign_spec : forall lenient ops h cts T order,
+  let c := fst (crun lenient ops) in let a := fst (arun lenient ops) in let ft := foreign_tree cts in
+  forall v idx, cur_view c h = Some (v, idx) -> has_type ft T = true ->
+  (exists D, descendants ft T = Some D /\ NoDup D /\ forall x, In x D <-> sub ft x T) /\
+  exists c' l, step cpl c (OSelect h (ByForeign cts T) order) = (c', OList l) /\
+    Permutation l (map fs_ent (filter (fun f => subb ft (f_type f) T) (bag_of a v))) /\
+    (forall f, subb ft (f_type f) T = true <-> sub ft (f_type f) T).
+Proof. exact select_foreign_spec. Qed.
+Print Assumptions C06_select_foreign_spec.
+(* the object is used as it is: what the CAS's own type system holds (that name, another type with that short name,
+   nothing) plays no part ... *)
+Theorem C06_select_foreign_ignores_own_tree : forall (P : Type) (pl : payload P) l tr tr' vs hs h cts T order,
+  snd (step pl (mkSt l tr vs hs) (OSelect h (ByForeign cts T) order)) =
+  snd (step pl (mkSt l tr' vs hs) (OSelect h (ByForeign cts T) order)).
+Proof. exact @select_foreign_ignores_own_tree. Qed.
+Print Assumptions C06_select_foreign_ignores_own_tree.
+(* ... and a Type object of a type system holding the same tree is as good as the CAS's own *)
+Theorem C06_select_foreign_same_tree : forall (P : Type) (pl : payload P) (st : state P) h cts T order,
+  foreign_tree cts = s_tree st -> has_type (s_tree st) T = true ->
+  step pl st (OSelect h (ByForeign cts T) order) = step pl st (OSelect h (ByType T) order).
+Proof. exact @select_foreign_same_tree. Qed.
+Print Assumptions C06_select_foreign_same_tree.
 
 (* the filter above is the closure of the supertype map, and Type.descendants (with the fuel the model gives it)
    terminates and lists exactly that closure, each name once, on every reachable type tree *)
@@ -142,4 +186,23 @@ Example C06_premises_hold :
     OList [("u.C", mkKey maxsize maxsize 4); ("t.B", mkKey 0 9 2); ("t.A", mkKey 1 2 5); ("t.A", mkKey 3 5 1)] /\
   snd (step cpl c (OSelect 1 (ByType "t.A") [])) = OList [("t.A", mkKey 3 5 3)] /\
   snd (step cpl c (ORemove 0 twin)) = OErr EValue.
+Proof. cbv zeta. split; [eexists; vm_compute; reflexivity|]. vm_compute. repeat split; reflexivity. Qed.
+
+(* a lenient CAS that knows t.A and t.E; a second type system with x.P, x.Q < x.P and a dot-free E; instances of both:
+   the foreign x.P selects the x.P and x.Q instances the CAS's own type system has no name for, the foreign E selects
+   its own instance and not the instance of t.E whose unique short name it is *)
+Definition ex_cts : list (tname * tname) := [("x.P", "uima.cas.TOP"); ("x.Q", "x.P"); ("E", "uima.cas.TOP")].
+Definition ex_fops : list op :=
+  [OCreateType "t.A" "uima.cas.TOP"; OCreateType "t.E" "t.A";
+   OAddAll 0 [mkFs 1 "t.A" (Some (0, 2)); mkFs 2 "x.P" (Some (3, 5)); mkFs 3 "x.Q" (Some (1, 4));
+              mkFs 4 "t.E" (Some (0, 9)); mkFs 5 "E" (Some (2, 3))]].
+Example C06_foreign_premises_hold :
+  let c := fst (crun true ex_fops) in
+  (exists idx, cur_view c 0 = Some ("_InitialView", idx)) /\
+  has_type (foreign_tree ex_cts) "x.P" = true /\ has_type (s_tree c) "x.P" = false /\
+  resolve_sel (s_tree c) (ByName "E") = Ok "t.E" /\
+  snd (step cpl c (OSelect 0 (ByForeign ex_cts "x.P") [])) = OList [("x.P", mkKey 3 5 2); ("x.Q", mkKey 1 4 3)] /\
+  snd (step cpl c (OSelect 0 (ByForeign ex_cts "E") [])) = OList [("E", mkKey 2 3 5)] /\
+  snd (step cpl c (OSelect 0 (ByName "E") [])) = OList [("t.E", mkKey 0 9 4)] /\
+  snd (step cpl c (OSelect 0 (ByName "x.P") [])) = OErr ETypeNotFound.
 Proof. cbv zeta. split; [eexists; vm_compute; reflexivity|]. vm_compute. repeat split; reflexivity. Qed.
